@@ -21,6 +21,8 @@ pub enum Reent {
     CloneDrop(Slot),
     /// build a fresh, disjoint little graph and run a complete pass on it
     NestedPass,
+    /// format the operands and the received adjoint with `{:?}` (logging from inside a closure)
+    DebugFormat,
 }
 
 #[derive(Clone, Debug, Serialize, Deserialize, PartialEq)]
